@@ -67,6 +67,7 @@ type SetOpts struct {
 	Strategy    asv1.StatefulSetUpdateStrategyType
 	Partition   *int32 // nil => rollingUpdate block absent
 	Claims      []string
+	ClaimLabels bool // the first claim template carries labels of its own
 	HistLimit   int32
 	TemplateV   int
 	Labels      map[string]string
@@ -104,9 +105,13 @@ func NewSet(o SetOpts) *asv1.StatefulSet {
 	if o.Strategy == asv1.RollingUpdateStatefulSetStrategyType && o.Partition != nil {
 		s.Spec.UpdateStrategy.RollingUpdate = &asv1.RollingUpdateStatefulSetStrategy{Partition: I32(*o.Partition)}
 	}
-	for _, c := range o.Claims {
+	for i, c := range o.Claims {
+		var cl map[string]string
+		if o.ClaimLabels && i == 0 {
+			cl = map[string]string{"claim-owner": "team"}
+		}
 		s.Spec.VolumeClaimTemplates = append(s.Spec.VolumeClaimTemplates, corev1.PersistentVolumeClaim{
-			ObjectMeta: metav1.ObjectMeta{Name: c},
+			ObjectMeta: metav1.ObjectMeta{Name: c, Labels: cl},
 			Spec: corev1.PersistentVolumeClaimSpec{
 				AccessModes: []corev1.PersistentVolumeAccessMode{corev1.ReadWriteOnce},
 				Resources:   corev1.ResourceRequirements{Requests: corev1.ResourceList{corev1.ResourceStorage: resource.MustParse("1Gi")}},
